@@ -199,7 +199,8 @@ func (c *Ctx) runTLC(j TLCJob) TLCResult {
 		os.Remove(j.OutFile)
 		args = append(args, "-Dverif.out="+j.OutFile)
 	}
-	args = append(args, "-Dverif.seed="+strconv.Itoa(c.Seed), "-Dfile.encoding=UTF-8") // JSON traces carry Bangla names: without this the JVM reads them as U+FFFD
+	args = append(args, "-Dverif.seed="+strconv.Itoa(c.Seed), "-Dfile.encoding=UTF-8", // JSON traces carry Bangla names: without this the JVM reads them as U+FFFD
+		"-Dtlc2.tool.queue.IStateQueue=MemStateQueue") // TLC's disk queue writes strings byte-wise: a state that went to disk comes back with U+09DF as U+FFDF
 	for k, v := range j.Defs {
 		args = append(args, "-D"+k+"="+v)
 	}
